@@ -29,7 +29,14 @@ oracle: independent of the model — every record on the 'scrapli' logger tree a
         existing driver (ops `set_attr`, `reconnect`) before the first open, after a refused open, between two opens, between
         open and acquire_priv; each assignment is a model case (OpAssign: a credential store makes nothing observable), the
         operations after it are model cases with the values the driver holds at that point.  Family shape: send_interactive with
-        hidden events of unusual shapes (accepted ones are model cases, the rejected ones are oracle-only)."""
+        hidden events of unusual shapes (accepted ones are model cases, the rejected ones are oracle-only).
+        Family factory (harness/c12_factory.py): the driver is created the documented way, through scrapli.Scrapli /
+        scrapli.AsyncScrapli, for the five core platforms and for scrapli_community platforms — synthetic ones registered in
+        sys.modules for the construction (driver type network / generic / own driver classes, defaults, every variant) and the
+        ones of the installed package — with EVERY secret-bearing argument, the user logging at debug / info / warning / error /
+        critical (scenario field log_level); the construction is an operation of its own (model case OpConstruct: the record
+        may carry the platform's own arguments, nothing of the user's), then the platform's on_open dialogue, a command /
+        hidden input, repr, close; what the factory refuses (missing / broken platform, unknown variant) is oracle-only."""
 import asyncio
 import copy
 import io
@@ -52,7 +59,7 @@ SOURCES = [
     "scrapli/transport/plugins/system/transport.py", "scrapli/driver/generic/base_driver.py",
     "scrapli/driver/generic/sync_driver.py", "scrapli/driver/generic/async_driver.py", "scrapli/decorators.py",
     "scrapli/response.py", "scrapli/helper.py", "scrapli/transport/plugins/telnet/transport.py",
-    "scrapli/transport/plugins/asynctelnet/transport.py",
+    "scrapli/transport/plugins/asynctelnet/transport.py", "scrapli/factory.py",
 ]
 META = ["%s", "{0}", "\\", "(", "[", "$", "%(x)s", ".*", "{}", "\\d", "^", "|", "?", "*", "+", ")", "]", "%d", "%r",
         "'", '"', " ", "#", ">", "{", "}", "%"]
@@ -308,6 +315,10 @@ class _Mem(logging.Handler):
         self.events.append(("log", record.name, record.levelname, text))
 
 
+class _NotConstructed(Exception):
+    """the factory did not return a driver (harness control flow, never escapes run_scenario)"""
+
+
 class _ChanLog(io.BytesIO):
     def __init__(self, events):
         super().__init__()
@@ -323,6 +334,19 @@ class _ChanLog(io.BytesIO):
 
 def _exc_name(e):
     return type(e).__name__
+
+
+LOG_LEVELS = {"debug": logging.DEBUG, "info": logging.INFO, "warning": logging.WARNING, "error": logging.ERROR,
+              "critical": logging.CRITICAL}
+
+
+def _exc_chain(e):
+    chain, seen = [], set()
+    while e is not None and id(e) not in seen:
+        seen.add(id(e))
+        chain.append({"cls": _exc_name(e), "text": str(e) if isinstance(e, Exception) else "", "args": repr(getattr(e, "args", ""))})
+        e = e.__cause__ or e.__context__
+    return chain
 
 
 def instrument(d, stack, events, block):
@@ -482,15 +506,17 @@ def run_scenario(sc, workdir):
     logging.raiseExceptions = False
     files = {}
     os.makedirs(workdir, exist_ok=True)
+    # the level the user logs at (default: everything); the observers see what the 'scrapli' logger lets through
+    level = sc.get("log_level", "debug")
     for buffered in (True, False):
         path = os.path.join(workdir, "scrapli_%s.log" % ("buffered" if buffered else "plain"))
         if os.path.exists(path):
             os.remove(path)
-        slog.enable_basic_logging(file=path, level="debug", buffer_log=buffered, caller_info=sc.get("caller_info", False))
+        slog.enable_basic_logging(file=path, level=level, buffer_log=buffered, caller_info=sc.get("caller_info", False))
         files["buffered" if buffered else "plain"] = path
     lg = logging.getLogger("scrapli")
     lg.addHandler(_Mem(events))
-    lg.setLevel(logging.DEBUG)
+    lg.setLevel(LOG_LEVELS[level])
 
     dev, inner = make_device(sc)
     dev.start()
@@ -522,8 +548,25 @@ def run_scenario(sc, workdir):
             # the REAL transport plugin with a fake endpoint (pty / socket / stream pair / library channel)
             from .c12_rt import make_real_driver
             d = make_real_driver(sc["kind"], sc["transport"], dev, tuple(sc.get("policy", ["whole"])), sc.get("fault"), **kw)
+        elif sc.get("factory"):
+            # the driver the FACTORY returns (Scrapli / AsyncScrapli; core and scrapli_community platforms): the
+            # construction is an operation of its own — what it logs / raises is observed like any other step
+            from .c12_factory import make_factory_driver
+            events.append(("step", "construct"))
+            n0 = len(events)
+            try:
+                d = make_factory_driver(sc, dev, tuple(sc.get("policy", ["whole"])), sc.get("fault"), **kw)
+            except Exception as e:  # noqa  (platform not found / broken platform definition / rejected argument)
+                obs["exceptions"].append({"where": "construct", "chain": _exc_chain(e)})
+                obs["constructed"] = _exc_name(e)
+                d = None
+            construct_records = [ev for ev in events[n0:] if ev[0] == "log"]
+            obs["construct_records"] = [[ev[1], ev[2]] for ev in construct_records]
+            events.append(("step", "construct_end"))
         else:
             d = make_driver(sc["kind"], stack, dev, tuple(sc.get("policy", ["whole"])), sc.get("fault"), **kw)
+        if d is None:
+            raise _NotConstructed()
         instrument(d, stack, events, block)
         # the configuration the user gave (model/Secrets.v [conf]): what repr() / str() of the driver may show, at ANY
         # point of its life cycle, is decided from this — taken before the first operation
@@ -531,6 +574,15 @@ def run_scenario(sc, workdir):
         cdesc = {"host": str(d.host), "user": str(d.auth_username), "key": str(d.auth_private_key), "rest": repr(pristine),
                  "pw": kw.get("auth_password", ""), "ph": kw.get("auth_private_key_passphrase", ""),
                  "sec2": kw.get("auth_secondary", "")}
+        if sc.get("factory"):
+            from .c12_factory import platform_text
+            f = sc["factory"]
+            obs["constructed"] = type(d).__name__
+            # model case OpConstruct: (community platform?, what the platform definition supplies, the user's
+            # configuration) against the records the construction emitted
+            events.append(("construct_probe", f.get("origin") != "core",
+                           platform_text(f["synthetic"], f.get("variant")) if f.get("synthetic") else "",
+                           dict(cdesc), [ev[3] for ev in construct_records]))
 
         def probe_driver(tag):
             """repr() / str() of the driver (and of the option dict the user handed in, which repr(driver) prints)"""
@@ -549,12 +601,7 @@ def run_scenario(sc, workdir):
         done = []
 
         def note_exc(e, where):
-            chain, seen = [], set()
-            while e is not None and id(e) not in seen:
-                seen.add(id(e))
-                chain.append({"cls": _exc_name(e), "text": str(e) if isinstance(e, Exception) else "", "args": repr(getattr(e, "args", ""))})
-                e = e.__cause__ or e.__context__
-            obs["exceptions"].append({"where": where, "chain": chain})
+            obs["exceptions"].append({"where": where, "chain": _exc_chain(e)})
 
         def probe_response(res, hidden, probes=None):
             """what a user does with a Response / MultiResponse: str(), repr(), raise_for_status(), textfsm parsing.
@@ -688,6 +735,8 @@ def run_scenario(sc, workdir):
                 done.append(name)
         if d is not None:
             probe_driver("_after")
+    except _NotConstructed:
+        pass        # the factory refused: what it raised / logged is the observation
     finally:
         if actx is not None:
             obs["offered"] = [list(x) for x in actx.offered]
@@ -934,6 +983,18 @@ def build_conf_case(pr, cdesc, shown, items):
     ctor = {"repr": "OpRepr", "str": "OpStr"}[pr]
     c = "(mkConf %s)" % " ".join(coq_msg(P(cdesc[k])) for k in ("host", "user", "key", "rest", "pw", "ph", "sec2"))
     return "(%s %s, ([] : list rev), ([ORepr %s] : list obs), ([] : msg), 0%%nat)" % (ctor, c, coq_msg(P(shown)))
+
+
+def build_construct_case(community, plat_text, cdesc, records, items):
+    """Coq case term for one construction through the factory: OpConstruct of (community platform?, what the platform
+    definition supplies, the configuration the user gave) against the atoms of the records emitted meanwhile"""
+    P = items.proj
+    c = "(mkConf %s)" % " ".join(coq_msg(P(cdesc[k])) for k in ("host", "user", "key", "rest", "pw", "ph", "sec2"))
+    infos = []
+    for text in records:
+        infos += P(text)
+    return "(OpConstruct %s %s %s, ([] : list rev), ([] : list obs), (%s : msg), 0%%nat)" % (
+        coq_bool(bool(community)), coq_msg(P(plat_text)), c, coq_msg(sorted(set(infos))))
 
 
 FLAG_NAMES = ["kick", "user", "pass", "phrase", "prompt", "denied", "input", "expect", "complete"]
@@ -1610,6 +1671,125 @@ def gen_shape(rng):
     return sc_shape(rng, rng.choice(["sync", "sync", "async"]), rng.choice(sorted(EVENT_SHAPES)))
 
 
+# ------------------------------------------------------------------------------------------------
+# drivers created through the factory (family factory): core and scrapli_community platforms, every log level
+# ------------------------------------------------------------------------------------------------
+FACTORY_LEVELS = ["debug", "info", "warning", "error", "critical"]
+
+
+def sc_factory(rng, stack, origin, platform, variant=None, level="debug", mode="dialogue"):
+    """`Scrapli(platform=..., variant=..., host=..., auth_password=..., auth_private_key_passphrase=..., auth_secondary=...)`
+    / `AsyncScrapli(...)`: EVERY secret-bearing argument is handed to the factory, the user logs at `level`.
+    origin: core (the five core platforms) | synthetic (a scrapli_community platform registered for the construction:
+    harness/c12_factory.py SYNTHETIC) | installed (a platform of the installed scrapli_community package) |
+    broken (a platform definition the factory rejects) | missing (no such platform).
+    mode: construct (the driver is built and looked at) | dialogue (open — the platform's on_open escalates with
+    auth_secondary —, a command / a hidden interactive input, repr, close) | telnet-login (the same after the in-channel
+    telnet login types auth_password).  Canaries and observers as everywhere."""
+    from .c12_factory import BROKEN, SYNTHETIC
+    pw, ph, sec2 = canary(rng, "P"), canary(rng, "K"), canary(rng, "E")
+    user = "lab%d" % rng.randrange(100)
+    cmd, out = "show taro%d" % rng.randrange(100), "OUT-yam%d" % rng.randrange(1000)
+    spec = copy.deepcopy(SYNTHETIC.get(platform) or BROKEN.get(platform)) if origin in ("synthetic", "broken") else None
+    dtype = "network"
+    if origin == "synthetic":
+        dtype = "generic" if spec["driver_type"] == "generic" else "network"
+    if origin == "installed":
+        from .c12_factory import INSTALLED_GENERIC
+        dtype = "generic" if platform in INSTALLED_GENERIC else "network"
+    dkw = {"auth_username": user, "auth_password": pw, "auth_private_key_passphrase": ph}
+    secrets = {"password": pw, "passphrase": ph}
+    devplat = platform if origin == "core" else "cisco_iosxe"
+    dv = {"platform": devplat, "enable_secret": sec2}
+    if devplat in ENABLE_PLATFORMS:
+        dv["login_mode"] = "exec"
+    if dtype == "network":
+        dkw["auth_secondary"] = sec2
+        secrets["secondary"] = sec2
+        use = [["send_command", cmd, rng.choice([None, ["OUT-"]])]]
+    else:
+        secrets["hidden"] = sec2
+        use = [["send_interactive", [["enable", "Password:", False], [sec2, "router1#", True]], ["router1>", "router1#"],
+                rng.choice([None, ["Password"]])]]
+    if origin in ("installed", "broken", "missing") or not isinstance(platform, str):
+        mode = "construct"
+    policy = ["whole"]
+    if mode == "construct":
+        ops = [["repr"]]
+    else:
+        ops = [["open"]] + use + [["repr"], ["close"]]
+        if stack == "sync":
+            policy = gen_policy(rng)
+    if mode == "telnet-login":
+        if stack != "sync":
+            raise ValueError("the asyncio telnet login sleeps per loop iteration: sync only here")
+        dkw.update(auth_bypass=False, timeout_ops=120)      # see sc_login_telnet
+        dv.update(front="telnet", user=user, password=pw, ask_user=True)
+    return {"family": "factory", "mode": "%s/%s%s %s %s" % (origin, platform, "+" + variant if variant else "", level, mode),
+            "kind": platform if origin == "core" else "community-" + dtype, "stack": stack, "policy": policy,
+            "factory": {"origin": origin, "platform": platform, "variant": variant, "synthetic": spec},
+            "log_level": level, "device": dv, "driver_kwargs": dkw, "secrets": secrets, "outputs": {cmd: out},
+            "publics": [cmd, out, user], "ops": ops, "timeout": False, "fault": None,
+            "expect_constructed": origin in ("core", "synthetic") and isinstance(platform, str) and
+                                  (variant is None or origin == "core" or variant in (spec or {}).get("variants", {}))}
+
+
+def factory_platforms():
+    """(origin, platform, variant) of every synthetic community platform with each of its variants, and the core ones"""
+    from .c12_factory import CORE, SYNTHETIC
+    out = [("core", p, None) for p in CORE]
+    for name in sorted(SYNTHETIC):
+        out.append(("synthetic", name, None))
+        for v in sorted(SYNTHETIC[name]["variants"]):
+            out.append(("synthetic", name, v))
+    return out
+
+
+def corpus_factory(rng):
+    from .c12_factory import BROKEN, INSTALLED
+    out = []
+    combos = factory_platforms()
+    # every platform / variant: a whole dialogue on one stack at DEBUG or INFO, the construction alone on the other stack
+    # at the next level (so that every level meets every kind of platform over the corpus)
+    for i, (origin, platform, variant) in enumerate(combos):
+        stack = ("sync", "async")[i % 2]
+        other = ("async", "sync")[i % 2]
+        out.append(sc_factory(rng, stack, origin, platform, variant, ("debug", "info")[(i // 2) % 2], "dialogue"))
+        out.append(sc_factory(rng, other, origin, platform, variant, FACTORY_LEVELS[i % 5], "construct"))
+    # one community platform and one core platform at EVERY level, both stacks
+    for j, level in enumerate(FACTORY_LEVELS):
+        out.append(sc_factory(rng, ("sync", "async")[j % 2], "synthetic", "zqnet_edgeos", "longlines", level, "dialogue"))
+        out.append(sc_factory(rng, ("async", "sync")[j % 2], "synthetic", "zqcorp_switchos", None, level, "construct"))
+        out.append(sc_factory(rng, ("async", "sync")[j % 2], "core", "cisco_nxos", None, level, "construct"))
+    # the in-channel telnet login in front of a community platform's on_open
+    out.append(sc_factory(rng, "sync", "synthetic", "zqnet_edgeos", None, "debug", "telnet-login"))
+    out.append(sc_factory(rng, "sync", "synthetic", "zqcorp_switchos", "legacy", "info", "telnet-login"))
+    out.append(sc_factory(rng, "sync", "core", "arista_eos", None, "debug", "telnet-login"))
+    # platforms of the installed scrapli_community package (ScrapliModuleNotFound is the observation when it is not there)
+    for k, (platform, variant) in enumerate(INSTALLED):
+        out.append(sc_factory(rng, ("sync", "async")[k % 2], "installed", platform, variant, ("info", "debug")[k % 2]))
+    # what the factory refuses: no such platform, a platform definition without SCRAPLI_PLATFORM / defaults, an unknown
+    # variant, a platform that is not a string
+    for k, (origin, platform, variant) in enumerate([("missing", "zqnone_nosuchos", None), ("broken", sorted(BROKEN)[0], None),
+                                                     ("broken", sorted(BROKEN)[1], None), ("synthetic", "zqnet_edgeos", "nosuchvariant"),
+                                                     ("missing", 7, None)]):
+        out.append(sc_factory(rng, ("sync", "async")[k % 2], origin, platform, variant, ("debug", "info")[k % 2]))
+    return out
+
+
+def gen_factory(rng):
+    from .c12_factory import INSTALLED
+    r = rng.random()
+    stack = rng.choice(["sync", "sync", "async"])
+    level = rng.choice(FACTORY_LEVELS + ["debug", "info", "info"])
+    if r < 0.12:
+        platform, variant = rng.choice(INSTALLED)
+        return sc_factory(rng, stack, "installed", platform, variant, level)
+    origin, platform, variant = rng.choice([c for c in factory_platforms() if c[0] != "core"] * 2 + factory_platforms())
+    mode = rng.choice(["dialogue", "dialogue", "construct"] + (["telnet-login"] if stack == "sync" and platform != "zqwlc_controller" else []))
+    return sc_factory(rng, stack, origin, platform, variant, level, mode)
+
+
 def rt_faults(rng, sc, obs, every):
     """the same dialogue with the endpoint dead at one of its writes: at EVERY write that carries a secret, and at
     one other write (all other writes when `every`); the exception is one the plugin's endpoint raises"""
@@ -1828,6 +2008,9 @@ def run(rep):
     xrng = random.Random(trng.getrandbits(64))
     scenarios += corpus_rotate(xrng) + [gen_rotate(xrng, thorough) for _ in range(300 if thorough else 8)]
     scenarios += corpus_shape(xrng) + [gen_shape(xrng) for _ in range(300 if thorough else 8)]
+    # drivers created through the factory (core + scrapli_community platforms, every log level): own stream (derived last)
+    frng = random.Random(xrng.getrandbits(64))
+    scenarios += corpus_factory(frng) + [gen_factory(frng) for _ in range(400 if thorough else 12)]
     # replays of listed findings run first
     for f in rep.findings:
         p = os.path.join(common.VERIF, f.get("replay", ""))
@@ -1839,7 +2022,8 @@ def run(rep):
     dist = {"family": {}, "mode": {}, "stack": {}, "kind": {}, "policy": {}, "exception": {}, "ops_modelled": {},
             "secret_len": {}, "metachar_secrets": 0, "writes_redacted": 0, "writes_shown": 0, "flag_hits": {},
             "responses": {}, "response_probes": {}, "write_faults": {}, "real_transport": {}, "library_auth": {},
-            "transport_options": {}, "driver_repr_at": {}, "reassigned": {}, "rotate": {}, "event_shapes": {}}
+            "transport_options": {}, "driver_repr_at": {}, "reassigned": {}, "rotate": {}, "event_shapes": {},
+            "factory": {}, "factory_records": {}, "log_level": {}}
     terms, term_src = [], []
     resp_terms = set()
     nviol = 0
@@ -1881,6 +2065,24 @@ def run(rep):
             if missing and not sc.get("finding"):
                 rep.broken.append("harness: rotate scenario %d (%s %s %s): a reassigned credential was never typed at the device" % (
                     si, sc["mode"], sc["kind"], sc["stack"]))
+        lvl = sc.get("log_level", "debug")
+        dist["log_level"][lvl] = dist["log_level"].get(lvl, 0) + 1
+        if sc["family"] == "factory":
+            # which platform (origin, driver type, variant?) at which level on which stack, and what the factory returned
+            f = sc["factory"]
+            key = "%s %s%s %s %s -> %s" % (f["origin"], sc["kind"], " +variant" if f.get("variant") else "", lvl, sc["stack"],
+                                           obs.get("constructed"))
+            dist["factory"][key] = dist["factory"].get(key, 0) + 1
+            for (lname, llevel) in obs.get("construct_records", []):
+                k2 = "%s %s" % (lname if lname.count(".") < 2 else lname.split(".")[0] + ".<uid>." + lname.split(".")[-1], llevel)
+                dist["factory_records"][k2] = dist["factory_records"].get(k2, 0) + 1
+            failed = any(e["where"] == "construct" for e in obs["exceptions"])
+            if sc.get("expect_constructed") and failed and not sc.get("finding"):
+                rep.broken.append("harness: factory scenario %d (%s): the factory did not return a driver: %s" % (
+                    si, sc["mode"], [e["chain"][0]["cls"] for e in obs["exceptions"] if e["where"] == "construct"]))
+            if not failed and lvl in ("debug", "info") and not obs.get("construct_records") and not sc.get("finding"):
+                # nothing the construction logs reached the observers although the level lets INFO through: blind, fail closed
+                rep.broken.append("harness: factory scenario %d (%s): no record of the construction observed at level %s" % (si, sc["mode"], lvl))
         if sc["family"] == "shape":
             # what the code did with the shape (against what the unchanged tree does with it)
             excs = [e["chain"][0]["cls"] for e in obs["exceptions"] if e["where"] == "send_interactive"]
@@ -1930,7 +2132,20 @@ def run(rep):
                     nviol += 1
         # model cases (the library authentication itself is oracle-only; what follows an accepted one is modelled)
         items = items_of(sc)
+        for ev in obs["events"]:
+            if ev[0] != "construct_probe":
+                continue
+            # the factory's construction: model case OpConstruct (the records it emitted may carry the platform's own
+            # arguments, no atom of the user's credentials — at whatever level the user logs)
+            terms.append(build_construct_case(ev[1], ev[2], ev[3], ev[4], items))
+            term_src.append((si, "Factory.construct", None))
+            dist["ops_modelled"]["Factory.construct"] = dist["ops_modelled"].get("Factory.construct", 0) + 1
+            rep.evaluations += 1
         for (label, a, kw, evs, exc, exc_text) in op_segments(obs["events"]):
+            if lvl != "debug":
+                break       # the channel's write / read records are DEBUG records: the I/O trace the model cases compare
+                #             is only complete at DEBUG (the oracle scans the run at every level; construction, repr() /
+                #             str() and the Response probes are model cases at every level)
             try:
                 term = build_case(label, a, kw, evs, exc, exc_text, items, sc)
             except Exception as e:  # noqa
@@ -1989,7 +2204,11 @@ def run(rep):
                 "auth_secondary, auth_username assigned before the first open, after a refused open, between two opens, between open "
                 "and acquire_priv, over the scripted telnet login and the real system plugin, the device accepting only the new values; "
                 "send_interactive with hidden events of unusual shapes, accepted (response None / '', list events, extra elements) and "
-                "rejected (non-string response, short event, events as a tuple, input in a list)) + seeded scenarios + "
+                "rejected (non-string response, short event, events as a tuple, input in a list); drivers created through the "
+                "FACTORY (Scrapli / AsyncScrapli) with every secret-bearing argument: the five core platforms and scrapli_community "
+                "platforms (synthetic ones registered in sys.modules — network / generic / own driver classes, each variant — and "
+                "those of the installed package), the construction alone and followed by the platform's on_open dialogue, the user "
+                "logging at debug / info / warning / error / critical; missing / broken platform definitions, unknown variant) + seeded scenarios + "
                 "a malformed stream (all-metacharacter / very long / format-looking secrets, truthy non-bool hidden flag); "
                 "every Response / MultiResponse handed to the user is probed with str(), raise_for_status() and (no hidden input) repr(); "
                 "every repr()/str() of a driver is one model case (OpRepr / OpStr of the configuration given at construction); "
@@ -2111,7 +2330,20 @@ MANIFEST = {
             "the attribute it sets, the one of a __setattr__ for every attribute of the class family. send_interactive with a hidden "
             "event of an unusual shape: accepted by the code (expected response None / '', the event a list, extra elements) and "
             "rejected by it (non-string response, too short event before the hidden one, events handed over as a tuple, input "
-            "wrapped in a list) — no exception message (python errors included), log record or repr may quote the hidden input.",
+            "wrapped in a list) — no exception message (python errors included), log record or repr may quote the hidden input. "
+            "Drivers created through the FACTORY (scrapli.Scrapli / scrapli.AsyncScrapli — no other family goes through it) with "
+            "auth_password, auth_private_key_passphrase and auth_secondary (generic platforms: a hidden interactive input instead) "
+            "as canaries: every core platform; scrapli_community platforms laid out like the real package "
+            "(scrapli_community.<vendor>.<os> re-exporting SCRAPLI_PLATFORM of ...<vendor>_<os>, also a platform without os part) "
+            "registered in sys.modules for the construction — driver_type 'network', 'generic' and a pair of own driver classes, "
+            "defaults with privilege levels / on_open / on_close / a transport_options dict, every variant (overrides, a variant "
+            "with its own driver classes) — and platforms of the installed scrapli_community package (construction only); sync and "
+            "asyncio; the construction alone and followed by open() (the platform's on_open escalates with auth_secondary), a "
+            "command / hidden input, repr, close, also behind the in-channel telnet login; the user logging at EVERY level "
+            "(debug, info, warning, error, critical: scenario field log_level, both file handlers and the record observer see "
+            "what the 'scrapli' logger lets through); what the factory refuses (no such platform, no SCRAPLI_PLATFORM, no "
+            "defaults, unknown variant, non-string platform) with the credentials in scope. The construction is a model case "
+            "(OpConstruct: one record with the platform's own arguments, nothing of the user's configuration, at any level).",
     "note": "Trusted: Coq kernel + vm_compute; the hand model coq/model/Secrets.v (tied to the code by running every channel operation "
             "of every scenario through the model on the history observed at the transport: same write records REDACTED-or-shown, reads, "
             "channel log, exception class; other records compared as sets of data items); gen/gen_sinks.py (identifier-level value flow "
@@ -2140,7 +2372,17 @@ MANIFEST = {
             "the same driver / transport object for the next open()) is a harness step, not an operation of scrapli. Interact events "
             "of unusual shapes: the accepted ones are model cases as what the code reads of them (elements 0..2, response None / '' = "
             "read to the prompt), the REJECTED ones (python errors in the middle of the interaction, ScrapliTypeError for a "
-            "non-list) are oracle-only; descriptor classes with __set__ are not followed by the sink table. ORACLE-ONLY (no Coq model, covered by the sink table + the canary oracle): "
+            "non-list) are oracle-only; descriptor classes with __set__ are not followed by the sink table. Factory: "
+            "model/Secrets.v [m_construct] is one OInfo record holding the platform definition's atoms (community) or nothing "
+            "(core) — the case compares the SECRET atoms of all records emitted during the real construction against it (public "
+            "atoms and the number / wording of records are free), so the model says what may NOT be there, not what the factory "
+            "does: platform resolution (importlib, variants, driver classes) and the merge of platform and user arguments have no "
+            "Coq model; a construction the factory refuses is oracle-only. Scenarios logging above DEBUG: the channel "
+            "operations' model cases are skipped (their write / read records are DEBUG records), construction, driver repr/str "
+            "and Response probes stay model cases, the oracle scans everything. The synthetic platforms stand for "
+            "scrapli_community (harness/c12_factory.py: modules put into sys.modules and removed after the construction; on_open / "
+            "on_close are scrapli's own IOS-XE ones, the device is the IOS-XE simulator); installed platforms are only "
+            "constructed (when the package is missing the factory's ScrapliModuleNotFound is what is observed). ORACLE-ONLY (no Coq model, covered by the sink table + the canary oracle): "
             "Response.textfsm_parse_output and every run with a failing transport write (model cases stop at a twrite exception); the real "
             "transport plugins are driven through fake endpoints (harness/c12_rt.py: open() replaced on the instance, the library "
             "authentication of paramiko / asyncssh / ssh2 is not run there; ssh2 is skipped when not installed). ORACLE-ONLY as well: the "
